@@ -323,7 +323,7 @@ CHECKS["C15"] = {
     "level": "exploration",
     "technique": "runtime monitoring: decoder run on an exhaustive (tag x length x filler) sweep, scalar-canonicity boundary values in every scalar slot, random and mutation-fuzzed strings, and on every kind of prover output; oracle = independent acceptance predicate (own big-integer comparison with the group order) + re-encode equality + bincode/serde equivalence",
     "design_ref": "DESIGN.md section 4 C15",
-    "legs": [{"name": "fm", "shards": 16}, {"name": "ris", "shards": 16}],
+    "legs": [{"name": "fm", "shards": 16}, {"name": "ris", "shards": 16}, {"name": "miri", "runner": "miri", "miri_seeds": 1, "tiers": ["thorough"]}],
     "rule": "sweep: every (first byte 0..=255, length 0..=1314) with three fillers (zeros, canonical pattern, 0xFF) - counted as distinct (tag, length) classes; boundary: every scalar slot x {l-1, l, l+1, l+2^64, 2^252+l, "
             "2^255-1, 2^256-1, high bit, 2^252, 0} for degrees 1..6 and 1/2/7 rounds; fuzz: random valid encodings under 8 mutation operators; prover outputs: one per (bits, aggregation) pair of the lattice with rotating degree; "
             "non-trivial = from_bytes ran and its result was compared with the predicate",
@@ -396,6 +396,7 @@ CHECKS["C18"] = {
         {"name": "race", "shards": 8},
         {"name": "threads-tsan", "leg": "threads", "build": "tsan", "shards": 4, "sanitizer": "tsan", "args": ["profile=tsan"]},
         {"name": "race-tsan", "leg": "race", "build": "tsan", "shards": 4, "sanitizer": "tsan", "args": ["profile=tsan"]},
+        {"name": "miri", "runner": "miri", "miri_seeds": 16, "tiers": ["thorough"]},
     ],
     "rule": "history cases: a random sequence of 3..12 calls (prove, verify, batches failing mid-way on an undecodable point / round mismatch / inconsistency / identity point / final check, decode, parameter construction, recovery) "
             "followed by a fixed probe set whose digest (proof bytes, verdicts, masks, generator encodings) is compared with the digest from a virgin process, on the same thread and on a fresh thread; threads cases: one round of T in {2,4,8,16} threads "
